@@ -82,6 +82,9 @@ Qed.
 Lemma rxn_set_issue r x : rxn (set_issue r x) = rxn r.
 Proof. destruct r; reflexivity. Qed.
 
+Lemma restore_fields a b : solved (restore OR a b) = solved b /\ issue (restore OR a b) = issue b.
+Proof. unfold restore. destruct (_ && _); destruct b; auto. Qed.
+
 (* ---- the determinism argument *)
 Section Row.
 Variables (i : nat) (s : string).
@@ -122,7 +125,8 @@ Proof.
   pose proof (V1 M_MCS true false None x5 S5) as E6. fold x6 in E6. rewrite E5 in E6. simpl in E6. rewrite E1 in E6.
   destruct (V_unsolved _ _ _ _ _ E6) as [_ [I6 [Y6 [_ [K6 [R6 _]]]]]]. fold x6 in I6, Y6, K6, R6. simpl in K6, R6. rewrite E5 in K6.
   assert (P6 : post_process OR x6 = x6) by (unfold post_process; now rewrite Y6, Y5).
-  change (F r0) with (validate M_MCS true true (Some FINAL_MSG) (rb_row (post_process OR x6))). rewrite P6.
+  assert (NR : forall z, restore OR x6 z = z) by (intros z; unfold restore, pp_fires; rewrite Y6, Y5; reflexivity).
+  change (F r0) with (validate M_MCS true true (Some FINAL_MSG) (restore OR x6 (rb_row (post_process OR x6)))). rewrite P6, NR.
   destruct (rb_row_fields x6) as [B1 _]. rewrite V1 by congruence. simpl.
   assert (RX : rxn (rb_row x6) = rxn x2) by (unfold x2; apply rb_row_rxn_ext; congruence).
   rewrite RX.
@@ -146,14 +150,15 @@ Proof.
     { unfold x3. rewrite mcs_validate. destruct (rb_row_fields x1) as [_ [_ [_ [_ [_ B6]]]]]. unfold x2. rewrite B6. unfold x1. now rewrite mcs_validate. }
     assert (E4 : x4 = x3) by (unfold x4, mcs_find; now rewrite S3).
     assert (E5 : x5 = x3) by (unfold x5, mcs_impute; rewrite E4, M3; reflexivity).
-    change (F r0) with (validate M_MCS true true (Some FINAL_MSG) (rb_row (post_process OR (validate M_MCS true false None x5)))).
+    change (F r0) with (validate M_MCS true true (Some FINAL_MSG) (restore OR (validate M_MCS true false None x5) (rb_row (post_process OR (validate M_MCS true false None x5))))).
     rewrite E5. destruct (V_solved_keeps M_MCS true false None x3 S3) as [A1 A2].
     set (x6 := validate M_MCS true false None x3) in *.
     assert (A3 : solved (post_process OR x6) = true) by (now rewrite solved_post_process).
     assert (A4 : issue (post_process OR x6) = issue x6).
     { unfold post_process. destruct (sby x6) as [m|]; auto. destruct (String.eqb m M_INPUT); auto. destruct (pp OR (rxn x6)); auto. }
     destruct (rb_row_fields (post_process OR x6)) as [B1 [_ [_ [B4 _]]]].
-    destruct (V_solved_keeps M_MCS true true (Some FINAL_MSG) (rb_row (post_process OR x6)) ltac:(congruence)) as [_ C2].
+    destruct (restore_fields x6 (rb_row (post_process OR x6))) as [RS RI].
+    destruct (V_solved_keeps M_MCS true true (Some FINAL_MSG) (restore OR x6 (rb_row (post_process OR x6))) ltac:(congruence)) as [_ C2].
     congruence.
   - (* solved by the MCS route: the imputation succeeded, hence the search left an empty issue *)
     right. destruct (x3_unsolved_facts S3) as [_ [_ [_ [_ [_ [R3 [_ [_ [_ [M3 I3]]]]]]]]]].
@@ -168,13 +173,14 @@ Proof.
     pose proof (impute_needs_empty_issue _ _ _ IM) as EI. rewrite R4, MS in EI. simpl in EI. subst iss.
     assert (I5 : issue x5 = Some "") by (unfold x5, mcs_impute; rewrite M4, IM, X4; destruct x3; reflexivity).
     assert (S5 : solved x5 = false) by (unfold x5; now rewrite solved_mcs_impute).
-    change (F r0) with (validate M_MCS true true (Some FINAL_MSG) (rb_row (post_process OR (validate M_MCS true false None x5)))) in *.
+    change (F r0) with (validate M_MCS true true (Some FINAL_MSG) (restore OR (validate M_MCS true false None x5) (rb_row (post_process OR (validate M_MCS true false None x5))))) in *.
     set (x6 := validate M_MCS true false None x5) in *.
     assert (I6 : issue x6 = Some "") by (unfold x6; now rewrite validate_issue_none).
     assert (I7 : issue (post_process OR x6) = Some "").
     { unfold post_process. destruct (sby x6) as [mm|]; auto. destruct (String.eqb mm M_INPUT); auto. destruct (pp OR (rxn x6)); auto. }
     destruct (rb_row_fields (post_process OR x6)) as [B1 [_ [_ [B4 _]]]].
-    set (x8 := rb_row (post_process OR x6)) in *.
+    destruct (restore_fields x6 (rb_row (post_process OR x6))) as [RS RI].
+    set (x8 := restore OR x6 (rb_row (post_process OR x6))) in *.
     destruct (solved x8) eqn:S8.
     + destruct (V_solved_keeps M_MCS true true (Some FINAL_MSG) x8 S8) as [_ C2]. congruence.
     + rewrite (V_newly_solved_issue M_MCS true true (Some FINAL_MSG) x8 S8 SF). congruence.
